@@ -95,6 +95,10 @@ fn on_point(name: &'static str) {
             });
         }
     }
+    // gate (see `arm_gate`): hold the first thread reaching the armed point until released
+    if GATE_ARMED.load(Ordering::SeqCst) {
+        gate_hold(name);
+    }
     // delay
     let (pm, max_us, seed) = {
         let p = gl.plan.lock().unwrap();
@@ -174,6 +178,93 @@ pub fn random_chain_plan(rng: &mut vbase::Rng) -> DelayPlan {
         points,
         seed: rng.next_u64(),
     }
+}
+
+// ---------------------------------------------------------------------------------------
+// Gate: a logical hold (not a sleep). The engine arms a point name; the FIRST thread of the
+// node that reaches that point afterwards is parked there until the engine releases it (or a
+// generous timeout expires, which the engine reports as inconclusive). Other threads and other
+// points are unaffected; nothing happens unless a gate is armed.
+
+#[derive(Default)]
+struct GateState {
+    point: Option<&'static str>,
+    holding: bool,
+    released: bool,
+    timed_out: bool,
+}
+
+static GATE_ARMED: AtomicBool = AtomicBool::new(false);
+static GATE: Mutex<GateState> = Mutex::new(GateState {
+    point: None,
+    holding: false,
+    released: false,
+    timed_out: false,
+});
+static GATE_CV: std::sync::Condvar = std::sync::Condvar::new();
+
+/// Longest time a thread is parked at a gate when the engine never releases it.
+const GATE_MAX_HOLD: std::time::Duration = std::time::Duration::from_secs(60);
+
+fn gate_hold(name: &'static str) {
+    let mut st = GATE.lock().unwrap();
+    if st.point != Some(name) || st.holding || st.released {
+        return;
+    }
+    st.holding = true;
+    GATE_CV.notify_all();
+    let (mut st, res) = GATE_CV
+        .wait_timeout_while(st, GATE_MAX_HOLD, |s| !s.released)
+        .unwrap();
+    if res.timed_out() {
+        st.timed_out = true;
+    }
+    st.holding = false;
+    st.point = None;
+    GATE_ARMED.store(false, Ordering::SeqCst);
+    GATE_CV.notify_all();
+}
+
+/// Arm a one-shot gate at `point` (replaces any previous gate that is not holding a thread).
+pub fn arm_gate(point: &'static str) {
+    let mut st = GATE.lock().unwrap();
+    if st.holding {
+        return;
+    }
+    *st = GateState {
+        point: Some(point),
+        ..Default::default()
+    };
+    GATE_ARMED.store(true, Ordering::SeqCst);
+}
+
+/// Wait until a thread is parked at the armed gate. `false`: nobody arrived in time.
+pub fn wait_gate_held(timeout: std::time::Duration) -> bool {
+    let st = GATE.lock().unwrap();
+    let (st, _) = GATE_CV
+        .wait_timeout_while(st, timeout, |s| !s.holding)
+        .unwrap();
+    st.holding
+}
+
+/// Is a thread parked at the gate right now?
+pub fn gate_is_holding() -> bool {
+    GATE.lock().unwrap().holding
+}
+
+/// Release the parked thread (or disarm a gate nobody reached). Returns `true` iff a thread was
+/// parked and is being released by this call (i.e. the hold was ended by the engine, not by the
+/// timeout).
+pub fn release_gate() -> bool {
+    let mut st = GATE.lock().unwrap();
+    let was_holding = st.holding && !st.timed_out;
+    st.released = true;
+    if !st.holding {
+        st.point = None;
+        GATE_ARMED.store(false, Ordering::SeqCst);
+    }
+    GATE_CV.notify_all();
+    was_holding
 }
 
 // ---------------------------------------------------------------------------------------
